@@ -32,8 +32,14 @@ def rand_input(rng, rows, cols, n, alph):
         r = rng.random()
         if r < 0.45:
             out.append(rng.choice(alph))
-        elif r < 0.55:
+        elif r < 0.53:
             out.append(rng.choice('\r\n\x08\n'))
+        elif r < 0.55:
+            out.append(chr(rng.choice(list(range(0, 32)) + [127])))          # any C0 control, DEL
+        elif r < 0.60:
+            s = rng.choice(known_sequences(rng, rows, cols))               # a sequence interrupted by a control character (CAN / SUB cancel, BEL, TAB, ...)
+            k = rng.randrange(1, len(s) + 1)
+            out.append(s[:k] + chr(rng.choice([0x18, 0x1a, 0x18, 0x1a, 7, 9, 0, 11, 12, 14, 15, 127, 5])) + (s[k:] if rng.random() < 0.5 else ''))
         elif r < 0.88:
             out.append(rng.choice(known_sequences(rng, rows, cols)))
         elif r < 0.94:
@@ -107,7 +113,8 @@ def run(ctx):
     cmds = ['a', '\r', '\n', '\x08', ESC + '[H', ESC + '[2;3H', ESC + '[9;9H', ESC + '[0;0H', ESC + '[A', ESC + '[B', ESC + '[C', ESC + '[D',
             ESC + '[5A', ESC + '[0B', ESC + '[J', ESC + '[1J', ESC + '[2J', ESC + '[K', ESC + '[1K', ESC + '[2K', ESC + '[3K', ESC + '[r',
             ESC + '[2;2r', ESC + '[0;0r', ESC + '[2;1r', ESC + 'M', ESC + '7', ESC + '8', ESC + '[1;2;3m', ESC + '[?25h', ESC + '[4l', ESC + '[1;',
-            ESC + '[;', ESC + '[x', ESC + ESC, ESC + '#3', ESC + '(A', ESC + '[1;2;x', ESC + '[1;2;3;4q', 'é']
+            ESC + '[;', ESC + '[x', ESC + ESC, ESC + '#3', ESC + '(A', ESC + '[1;2;x', ESC + '[1;2;3;4q', 'é',
+            '\x18', ESC + '[12\x18', ESC + '[3;4\x1a', ESC + '[?25\x18', '\t', '\x07', '\x0e']
     depth = 2 if ctx.quick() else 3
     nex = 0
     for seq in itertools.product(cmds, repeat=depth):
